@@ -100,6 +100,20 @@ func pure(c *vh.Ctx) {
 		c.Case(sb.String(), sb.String(), true)
 		c.Count("pure/sysbytes")
 	}
+	// oracle: no repeat within a long window of consecutive draws (the property's uniqueness clause;
+	// the theorem covers every window below 2^32)
+	for _, st := range []uint32{0, 0xFFFF0000, c.Rng.Uint32()} {
+		vs := hsms.VerifNextSystemBytes(st, 200000)
+		seen := make(map[uint32]struct{}, len(vs))
+		for i, v := range vs {
+			if _, dup := seen[v]; dup {
+				c.Fail("C06: system-bytes generator repeated a value within 200000 consecutive draws", fmt.Sprintf("start=%d draw=%d value=%d", st, i+1, v))
+				break
+			}
+			seen[v] = struct{}{}
+		}
+		c.Count("pure/sysbytes-window")
+	}
 }
 
 // ---------------------------------------------------------------------------------------------
@@ -440,7 +454,11 @@ func scenarios(c *vh.Ctx) {
 				role = "active"
 			}
 			if err != nil {
-				c.Fail("rig: scenario did not complete: "+sn.name+"/"+role, err.Error()+" | "+log)
+				if strings.Contains(err.Error(), "handler was not invoked") {
+					c.Fail("C06: an inbound data message that no waiting sender could take was not delivered to the handler ("+sn.name+"/"+role+")", log)
+				} else {
+					c.Fail("rig: scenario did not complete: "+sn.name+"/"+role, err.Error()+" | "+log)
+				}
 				continue
 			}
 			line := fmt.Sprintf("S %d %d %d %s | %s", t3.Milliseconds(), t6.Milliseconds(), 1, strings.Join(s.acts, " ; "), log)
